@@ -286,6 +286,10 @@ func ParseContractFile(path, pkg string) (*ContractFile, error) {
 			cf.Axioms = append(cf.Axioms, &Axiom{Name: name, C: c, Group: group, Pkg: pkg, Lemma: kw == "lemma"})
 			cur = nil
 		case "pure":
+			if rest == "" && cur != nil {
+				cur.Pure = true
+				continue
+			}
 			cf.Pures = append(cf.Pures, rest)
 			cur = nil
 		case "const":
